@@ -298,8 +298,10 @@ def run_case(case, rec):
                 for cut in sorted(set([5, 6, 8, len(payload) // 2,
                                        len(payload) - 1, len(payload) - 3])):
                     if 4 <= cut < len(payload):
-                        common.lib_unmarshal(_st.pack(
+                        u_ = common.lib_unmarshal(_st.pack(
                             '>BHI', 1, 1, cut) + payload[:cut] + b'\xce')
+                        if not u_.ok:
+                            common.handle_failed_decode(u_.exc)
                 rec.count('failing_decodes_before_roundtrip')
             u = common.lib_unmarshal(m.value) if m.ok else m
             g = u.value[2] if u.ok else None
